@@ -82,7 +82,8 @@ def lean_const(v):
     raise Unsupported("constant %r" % (v,))
 
 
-EXC_MAP = {"ValueError": "valueError", "TypeError": "typeError", "KeyError": "keyError", "IndexError": "indexError", "AdbTimeoutError": "adbTimeout", "InvalidCommandError": "invalidCommand", "InvalidChecksumError": "invalidChecksum"}
+EXC_MAP = {"ValueError": "valueError", "TypeError": "typeError", "KeyError": "keyError", "IndexError": "indexError", "AdbTimeoutError": "adbTimeout", "InvalidCommandError": "invalidCommand", "InvalidChecksumError": "invalidChecksum",
+           "AdbCommandFailureException": "adbCommandFailure", "InvalidResponseError": "invalidResponse"}
 CMP = {ast.Eq: "Py.eqV", ast.NotEq: "Py.neV", ast.Is: "Py.isV", ast.IsNot: "Py.isNotV", ast.In: "Py.inV", ast.NotIn: "Py.notInV",
        ast.Lt: "Py.ltV", ast.LtE: "Py.leV", ast.Gt: "Py.gtV", ast.GtE: "Py.geV"}
 BIN = {ast.Add: "Py.add", ast.Sub: "Py.sub", ast.Mult: "Py.mul", ast.FloorDiv: "Py.floordiv", ast.Mod: "Py.mod", ast.BitAnd: "Py.bitand",
@@ -274,6 +275,13 @@ class FnTr(object):
             o = self.expr(e.value)
             return self.bind("Py.getAttr %s %s" % (o, lean_str(e.attr)))
         if isinstance(e, ast.Subscript):
+            neg = const_fold(e.slice) if not isinstance(e.slice, ast.Slice) else None
+            if neg is not None and neg < 0:
+                return self.bind("Py.getItemNeg %s %d" % (self.expr(e.value), -neg))
+            if isinstance(e.slice, ast.Slice) and e.slice.step is None and e.slice.lower is not None and const_fold(e.slice.lower) is not None and const_fold(e.slice.lower) >= 0 \
+                    and (e.slice.upper is None or (const_fold(e.slice.upper) is not None and const_fold(e.slice.upper) < 0)) and getattr(self.u, "tuple_slices", False):
+                k = 0 if e.slice.upper is None else -const_fold(e.slice.upper)
+                return self.bind("Py.sliceTL %s %d %d" % (self.expr(e.value), const_fold(e.slice.lower), k))
             if isinstance(e.slice, ast.Slice):
                 if e.slice.lower is not None and e.slice.upper is None and e.slice.step is None:
                     c = self.expr(e.value)
@@ -630,6 +638,11 @@ class FnTr(object):
             if name not in EXC_MAP:
                 raise Unsupported("raise %s" % name)
             self.emit("throw Err.%s" % EXC_MAP[name])
+            return
+        if isinstance(s, ast.Assign) and len(s.targets) == 1 and isinstance(s.targets[0], ast.Name) and rest and isinstance(rest[0], ast.Raise) \
+                and not any(isinstance(x, ast.Name) and x.id == s.targets[0].id for st in rest[1:] for x in ast.walk(st)):
+            # a value that only feeds the message of the exception raised next is not computed (exception arguments are not modelled)
+            cont()
             return
         if isinstance(s, ast.Assign):
             if len(s.targets) != 1:
@@ -1286,6 +1299,14 @@ def build_units(repo):
                         main, argfns, info = effect_function(m, STREAM_EFFECTS)
                         for node, suffix in [(main, "fn")] + [(a, a.name.split("__")[-1]) for a in argfns]:
                             u.add_function("", node, lean="%s_%s" % (tag, suffix), params=[a.arg for a in node.args.args])
+                    elif m.name == "_filesync_read":
+                        u.tuple_slices = True
+                        try:
+                            main, argfns, info = effect_function(m, {"_filesync_flush", "_filesync_read_buffered"})
+                            for node, suffix in [(main, "fn")] + [(a, a.name.split("__")[-1]) for a in argfns]:
+                                u.add_function("", node, lean="%s_%s" % (tag, suffix), params=[a.arg for a in node.args.args])
+                        finally:
+                            pass
                     elif m.name in ("_filesync_read_buffered", "_filesync_flush"):
                         for suffix, node in loop_method(m, STREAM_EFFECTS):
                             u.add_function("", node, lean="%s_%s" % (tag, suffix), params=[a.arg for a in node.args.args])
